@@ -122,7 +122,9 @@ def classify(events, toks, oracle):
                     classes.append({"c": "call-delivered-noreply" if nr else "call-delivered", "s": "signal-delivered"}.get(ty, "other-delivered"))
             elif d.startswith("E."):
                 en = d.split(".")[1]
-                if en == "AccessDenied":
+                if ty in "vuw":
+                    classes.append("unknown-type-refused-with-outstanding-reply-serial" if rser else "unknown-type-refused")
+                elif en == "AccessDenied":
                     classes.append("reply-refused" if rser else "duplicate-serial-refused")
                 elif en == "LimitsExceeded":
                     classes.append("limit-refused")
